@@ -808,3 +808,80 @@ def guarded_site(fn, site_bb, a_req, b_req, bad_rel, deep=True):
             continue
         return True, "bb%d decides a %s b; the site is reachable only through the other branch" % (sb, bad_rel)
     return False, why
+
+
+def conditions_at(g, bb, same_loop=False):
+    """Conditions under which block bb is reached: for every dominating switch with a single edge towards bb a tuple
+    (kind, names, value): kind 'call:<name>' (boolean result of a call), 'cmp:<Op>' (comparison; value = does the comparison
+    hold), 'bool' (a boolean place), 'discr' (enum discriminant; value = variant index or 'otherwise').
+    names: frozenset of field names, callee names, literals ('lit<n>') and constants feeding the tested value."""
+    from .mir import path_conditions
+    out = []
+    again = g.reach_from(g.succ(bb)) if same_loop else None
+    for (sb, val) in path_conditions(g, bb):
+        if again is not None and sb not in again:
+            continue
+        st = g.term(sb)
+        o = g.origins(st["d"])
+        od = g.origins(st["d"], deep=True)
+        names = frozenset([x[1] for x in od if x[0] == "field"] + ["lit%s" % x[1] for x in od if x[0] == "lit"] +
+                          [x[1].split("::")[-1] for x in od if x[0] in ("call", "const")] + [x[1].split("::")[-1] for x in od if x[0] == "agg"])
+        if st.get("dty") not in (None, "bool") and any(a[0] == "discr" for a in o):
+            out.append(("discr", names, val))
+            continue
+        truth = (val != "0")
+        neg = sum(1 for a in o if a[0] == "un" and a[1] == "Not") % 2 == 1
+        done = False
+        for cx in comparisons(g):
+            br = cmp_branches(g, cx)
+            if br and br[0] == sb:
+                oo = g.origins(cx["a"], deep=True) | g.origins(cx["b"], deep=True)
+                taken = st["o"] if val == "otherwise" else [tb for v, tb in st["t"] if v == val][0]
+                nn = frozenset([x[1] for x in oo if x[0] == "field"] + ["lit%s" % x[1] for x in oo if x[0] == "lit"] +
+                               [x[1].split("::")[-1] for x in oo if x[0] in ("call", "const")])
+                out.append(("cmp:" + cx["op"], nn, taken == br[1]))
+                done = True
+        if done:
+            continue
+        calls = [a for a in o if a[0] == "call" and not a[1].endswith("__private::not")]
+        nots = sum(1 for a in o if a[0] == "call" and a[1].endswith("__private::not"))
+        if nots:
+            # anyhow::ensure!: the tested value is the argument of `not`
+            for a in o:
+                if a[0] == "call" and len(a) > 2 and a[1].endswith("__private::not"):
+                    inner = g.origins(g.term(a[2])["args"][0])
+                    calls += [x for x in inner if x[0] == "call"]
+                    names = names | frozenset(x[1] for x in g.origins(g.term(a[2])["args"][0], deep=True) if x[0] == "field")
+            neg = neg != (nots % 2 == 1)
+        if calls:
+            for a in calls:
+                out.append(("call:" + a[1].split("::")[-1], names, truth != neg))
+        else:
+            out.append(("bool", names, truth != neg))
+    return out
+
+
+def condition_of_switch(g, sb, target):
+    """(kind, value) of the condition tested at switch sb on the edge(s) leading to `target` (a direct successor), in the
+    vocabulary of conditions_at; None if the successor is not a direct single-valued edge."""
+    st = g.term(sb)
+    vals = [v for v, tb in st["t"] if tb == target] + (["otherwise"] if st["o"] == target else [])
+    if len(vals) != 1:
+        return None
+    val = vals[0]
+    o = g.origins(st["d"])
+    for cx in comparisons(g):
+        br = cmp_branches(g, cx)
+        if br and br[0] == sb:
+            return ("cmp:" + cx["op"], target == br[1])
+    truth = (val != "0")
+    nots = sum(1 for a in o if a[0] == "call" and a[1].endswith("__private::not")) + sum(1 for a in o if a[0] == "un" and a[1] == "Not")
+    # comparison behind anyhow's not(): follow one level
+    for a in o:
+        if a[0] == "call" and len(a) > 2 and a[1].endswith("__private::not"):
+            inner = g.term(a[2])["args"][0]
+            pi = op_place(inner)
+            for cx in comparisons(g):
+                if pi is not None and cx["res"] == pi[0]:
+                    return ("cmp:" + cx["op"], (truth != (nots % 2 == 1)))
+    return ("bool", truth != (nots % 2 == 1))
